@@ -19,6 +19,9 @@ UTIL_H = "lib/texellib/util/util.hpp"
 BB_H = "lib/texellib/bitBoard.hpp"
 BB_C = "lib/texellib/bitBoard.cpp"
 PIECE_H = "lib/texellib/piece.hpp"
+EVAL_C = "lib/texellib/evaluate.cpp"
+TBPROBE_C = "lib/texellib/tb/tbprobe.cpp"
+PG_C = "lib/texellib/book/polyglot.cpp"
 
 # (name, module, file, old, new, expectation)   expectation: "break" | "pass"
 CASES = [
@@ -142,6 +145,24 @@ CASES = [
      "    mask |= mask >> 1;\n    mask |= mask >> 2;", "    mask = mask | (mask >> 1);\n    mask = (mask >> 2) | mask;", "pass"),
     ("Piece enumerators without explicit values", "Bits", PIECE_H,
      "      EMPTY = 0,\n      WKING = 1,\n      WQUEEN = 2,\n      WROOK = 3,", "      EMPTY,\n      WKING,\n      WQUEEN,\n      WROOK = 3,", "pass"),
+    # ---- TB (evaluate.cpp swindleScore, tbprobe.cpp rule50Margin) and Book (polyglot.cpp unpacking) ---------------
+    ("rule50Margin: 99 - hmc", "TB", TBPROBE_C, "int margin = (100 - hmc) - (SearchConst::MATE0 - 1 - abs(dtmScore) - ply);", "int margin = (99 - hmc) - (SearchConst::MATE0 - 1 - abs(dtmScore) - ply);", "break"),
+    ("rule50Margin: ply added instead of subtracted", "TB", TBPROBE_C, "- abs(dtmScore) - ply);", "- abs(dtmScore) + ply);", "break"),
+    ("rule50Margin: abs dropped", "TB", TBPROBE_C, "SearchConst::MATE0 - 1 - abs(dtmScore) - ply);", "SearchConst::MATE0 - 1 - dtmScore - ply);", "break"),
+    ("swindleScore: min with minFrustrated (35 reachable)", "TB", EVAL_C, "score = std::min(score, minFrustrated - 1);", "score = std::min(score, minFrustrated);", "break"),
+    ("swindleScore: lg - 4", "TB", EVAL_C, "score = (lg - 3) * 4 + (score >> (lg - 2));", "score = (lg - 4) * 4 + (score >> (lg - 2));", "break"),
+    ("swindleScore: far branch max with maxFrustrated + 2", "TB", EVAL_C, "std::max(maxFrustrated + 1 - std::abs(distToWin), minFrustrated);", "std::max(maxFrustrated + 2 - std::abs(distToWin), minFrustrated);", "break"),
+    ("swindleScore: sign of near branch flipped", "TB", EVAL_C, "int sgn = evalScore >= 0 ? 1 : -1;", "int sgn = evalScore >= 0 ? -1 : 1;", "break"),
+    ("lastBit table entry changed (seen through swindleScore)", "TB", BB_C, "   13, 18,  8, 12,  7,  6,  5, 63", "   13, 18,  8, 12,  7,  6,  5, 62", "break"),
+    ("swindleScore: +4 as +3+1, locals renamed", "TB", EVAL_C,
+     "        int score = std::abs(evalScore) + 4;\n        int lg = BitUtil::lastBit(score);\n        score = (lg - 3) * 4 + (score >> (lg - 2));\n        score = std::min(score, minFrustrated - 1);\n        return sgn * score;",
+     "        int v = std::abs(evalScore) + 3 + 1;\n        int msb = BitUtil::lastBit(v);\n        v = (msb - 3) * 4 + (v >> (msb - 2));\n        v = std::min(v, minFrustrated - 1);\n        return sgn * v;", "pass"),
+    ("polyglot getMove: to-row mask 3", "Book", PG_C, "int toRow = (move >> 3) & 7;", "int toRow = (move >> 3) & 3;", "break"),
+    ("polyglot getMove: from-file shift 5", "Book", PG_C, "int fromFile = (move >> 6) & 7;", "int fromFile = (move >> 5) & 7;", "break"),
+    ("polyglot getMove: file/row swapped", "Book", PG_C, "    int toFile = move & 7;\n    int toRow = (move >> 3) & 7;", "    int toFile = (move >> 3) & 7;\n    int toRow = move & 7;", "break"),
+    ("polyglot getMove: hex masks, declarations reordered", "Book", PG_C,
+     "    int toFile = move & 7;\n    int toRow = (move >> 3) & 7;\n    int fromFile = (move >> 6) & 7;\n    int fromRow = (move >> 9) & 7;\n    int prom = (move >> 12) & 7;",
+     "    int toFile = move & 0x7;\n    int fromFile = (move >> 6) & 0x7;\n    int toRow = (move >> 3) & 0x7;\n    int prom = (move >> 12) & 0x7;\n    int fromRow = (move >> 9) & 0x7;", "pass"),
 ]
 
 
